@@ -464,8 +464,12 @@ class _Walker:
         # defining expression (which would now read the mutated object), so its binding is recorded as an effect of its own and
         # the name stays
         for k in [k for k, v in env.items() if k not in muts and any(isinstance(n, ast.Name) and n.id in muts for n in ast.walk(v))]:
+            # the frozen value gets a name of its own (`k__L<line>`): `k` may be rebound later, or may be a parameter that the
+            # frozen expression itself mentions (`data = f(data)`), and a reader must be able to tell the two apart
+            fz = f"{k.split('__L')[0]}__L{getattr(st, 'lineno', 0)}"
             effects.append(ast.fix_missing_locations(ast.copy_location(
-                ast.Assign(targets=[ast.Name(id=k, ctx=ast.Store())], value=env.pop(k)), st)))
+                ast.Assign(targets=[ast.Name(id=fz, ctx=ast.Store())], value=env[k]), st)))
+            env[k] = ast.Name(id=fz, ctx=ast.Load())
         effects.append(s2)
         for b in muts:
             env.pop(b, None)
@@ -722,12 +726,10 @@ def value_of(o: Outcome, name: str) -> Optional[ast.expr]:
     """The value local ``name`` holds at the end of the path: its substituted definition, or — when it had to be frozen
     because an object it was computed from was mutated afterwards — the value recorded with that binding."""
     v = o.env.get(name)
+    frozen = {e.targets[0].id: e.value for e in o.effects if isinstance(e, ast.Assign) and len(e.targets) == 1 and isinstance(e.targets[0], ast.Name)}
     if v is not None:
-        return v
-    for e in reversed(o.effects):
-        if isinstance(e, ast.Assign) and len(e.targets) == 1 and isinstance(e.targets[0], ast.Name) and e.targets[0].id == name:
-            return e.value
-    return None
+        return subst(v, frozen) if frozen else v
+    return frozen.get(name)
 
 
 def eval_under(outs: Sequence[Outcome], facts: Dict[str, bool], kinds: Sequence[str] = ("return", "raise", "yield", "yield_from", "fall")):
